@@ -6,6 +6,7 @@ import json
 import re
 
 import graphql
+from typing import Any
 from hypothesis import strategies as st
 
 import apischema
@@ -89,6 +90,9 @@ def strategy_(draw, tier):
                 row[a["n"]] = pick(draw, gen.ATOMS)
         data.append(row)
     case = {"prog": prog, "ops": ops, "aliaser": dyn, "data": data}
+    eh = pick(draw, [None, None, "none", "custom"])
+    if eh:
+        case["error_handler"] = eh
     # method resolvers with one integer parameter on classes reachable from the results (also on classes that are
     # flattened into others): {"cls", "name", "default": int | None, "given": int | None (None = argument omitted)}
     out_cls = sorted({i for o in ops for k_, i in tdcase.reachable_named(prog, o["ret"], "serialization") if k_ == "cls"})
@@ -248,7 +252,19 @@ def _evaluate(case, ctx, b, src):
         ctx.violation({"kind": kind, **extra}, case, f"{detail}\n{short[-1500:]}")
 
     try:
-        schema = graphql_schema(query=[getattr(mod, o["name"]) for o in ops], aliaser=al)
+        queries = [getattr(mod, o["name"]) for o in ops]
+        eh = case.get("error_handler")
+        if eh:
+            # the operation taking arguments is declared with an error handler (None: errors of the RESOLVER become
+            # null; custom: a fallback value): argument errors must still be GraphQL errors, the resolver not being called
+            from apischema.graphql import Query
+
+            def _fallback(error: Exception, obj: Any, info: Any, **kwargs: Any) -> None:
+                mod.CALLS.append(("error_handler", {}))
+                return None
+
+            queries[0] = Query(queries[0], error_handler=None if eh == "none" else _fallback)
+        schema = graphql_schema(query=queries, aliaser=al)
     except Exception as e:
         viol("schema_construction_crash", repr(e), exc=type(e).__name__, msg=re.sub(r"[A-Za-z_]*\d+[A-Za-z_0-9]*", "N", str(e))[:50])
         return
